@@ -76,6 +76,7 @@ def graph(ctx):
     for r in u.get_records(ProvElement):
         declared[r.identifier.uri] = declared.get(r.identifier.uri, 0) + 1
     rels = []
+    dontcare = []   # influence relations with an undeclared endpoint: outside the quantifier (drawn or skipped, no claim)
     skipped_influence = 0
     for r in u.get_records(ProvRelation):
         (n1, v1), (n2, v2) = r.formal_attributes[:2]
@@ -83,6 +84,7 @@ def graph(ctx):
             continue
         if r.get_type().localpart == "Influence" and (v1.uri not in declared or v2.uri not in declared):
             skipped_influence += 1   # documented: the node kind cannot be inferred, the relation is skipped
+            dontcare.append(r)
             continue
         rels.append((r, v1.uri, v2.uri))
     nodes = list(g.nodes())
@@ -98,7 +100,7 @@ def graph(ctx):
     ctx.check(sorted(n.identifier.uri for n in inferred) == sorted(undeclared),
               "inferred nodes %s differ from the referenced-but-undeclared endpoints %s"
               % (sorted(n.identifier.uri for n in inferred), sorted(undeclared)))
-    edges = list(g.edges(data=True))
+    edges = [e for e in g.edges(data=True) if not any(e[2].get("relation") == x for x in dontcare)]
     ctx.check(len(edges) == len(rels), "%d edges for %d relations with two endpoints" % (len(edges), len(rels)))
     for r, x, y in rels:
         hits = [e for e in edges if e[2].get("relation") is r or (e[2].get("relation") == r and S.record_eq(S.record_desc(e[2]["relation"]), S.record_desc(r)))]
@@ -106,7 +108,8 @@ def graph(ctx):
         ctx.check(len(hits) >= 1, "relation %s is not an edge from its first to its second argument" % KIND_NAMES[0])
     back = pg.graph_to_prov(g)
     want = [S.record_desc(r) for r in u.get_records(ProvElement)] + [S.record_desc(r) for r, _, _ in rels]
-    have = S.bundle_desc(back)
+    dc = [S.record_desc(x) for x in dontcare]
+    have = [h for h in S.bundle_desc(back) if not any(S.record_eq(h, x) for x in dc)]
     ctx.check(S.records_eq(have, want), "graph_to_prov(prov_to_graph(d)) is not the unified document restricted to elements and two-ended relations: %s"
               % S.first_difference(want, have))
     ctx.check(len(list(back.bundles)) == 0, "graph_to_prov invented bundles")
